@@ -202,13 +202,19 @@ def createdChange (base now : Nat) (m : Method) : Change :=
   { did := base + m.idx, method := m, row := base + m.idx, typ := .created, tx := base, ts := now,
     c := { vms := [base + m.idx], svcs := [] } }
 
-/-- first transaction of `Create` (subject given with `SubjectCreationOption`, or a fresh uuid) -/
+/-- `NewDIDManager(tx).FindBySubject(subject)` finds something -/
+def subjectExists (w : World) (s : String) : Bool := w.dids.any (fun r => r.subject = s)
+
+/-- the writing part of `Create`'s first transaction: a DID, a first version and a change record per enabled method -/
+def createWrite (cfg : Cfg) (w : World) (s : String) : World × List Change :=
+  ({ w with dids := w.dids ++ cfg.methods.map (newDid w.next w.now s),
+            keys := w.keys ++ cfg.methods.map (fun m => w.next + m.idx), next := 2 * w.next + 2 },
+   cfg.methods.map (createdChange w.next w.now))
+
+/-- first transaction of `Create` (subject given with `SubjectCreationOption`, or a fresh uuid): the existence check and
+    the write are ONE SQL transaction, i.e. one atomic step (regenerated fact `createChecksSubjectInsideTransaction`) -/
 def tx1Create (cfg : Cfg) (w : World) (s : String) : Res (World × List Change) :=
-  if w.dids.any (fun r => r.subject = s) then .err "exists"
-  else
-    .ok ({ w with dids := w.dids ++ cfg.methods.map (newDid w.next w.now s),
-                  keys := w.keys ++ cfg.methods.map (fun m => w.next + m.idx), next := 2 * w.next + 2 },
-         cfg.methods.map (createdChange w.next w.now))
+  if subjectExists w s then .err "exists" else .ok (createWrite cfg w s)
 
 def tx1 (cfg : Cfg) (w : World) (o : Op) : Res (World × List Change) :=
   match o with
